@@ -57,7 +57,11 @@ ASSUMPTIONS = [
     "one, whose ~ over-escapes: F5, not claimed)",
 ]
 
-EXCLUDE_FINALIZE_AUTOESCAPE = True   # known finding (finalize/escape order for constants); flip when fixed in /repo
+# by-construction exclusions of listed findings; flip one off when its fix lands in /repo (and move the known_findings.d
+# entry to replays/C08/)
+EXCLUDE_FINALIZE_AUTOESCAPE = True   # F36: finalize / escape order for constant output
+EXCLUDE_STRICT_LOAD_ERROR = True     # F38: StrictUndefined constant raises UndefinedError while the template is loaded
+EXCLUDE_CONST_SLICE = True           # F39: constant slice of a non-sequence folds to undefined, raises at run time
 
 _state = {}
 _counter = {"const_out": 0, "computed_out": 0}
@@ -176,7 +180,6 @@ def _observe(cfg, variants, flags):
 
 
 def _judge(cfg, variants, obs):
-    st = _setup()
     for f, rows in obs.items():
         first = rows[0][2]
         if all(r[2] == first for r in rows):
@@ -190,7 +193,6 @@ def _judge(cfg, variants, obs):
     rows = next(iter(obs.values()))
     if rows[0][2] == ("load", "TemplateSyntaxError") or rows[0][2] == ("load", "TemplateAssertionError"):
         raise core.HarnessError("generated template does not parse: %r" % (variants[0][1],))
-    del st
 
 
 def _uses_flag(body):
@@ -235,8 +237,13 @@ def _check(case, allow_known=False):
         cg.guard(body)
     except cg.GuardError:
         raise core.Excluded() from None
-    if EXCLUDE_FINALIZE_AUTOESCAPE and not allow_known and finalize_hazard(cfg, body):
-        raise core.Excluded()
+    if not allow_known:
+        if EXCLUDE_FINALIZE_AUTOESCAPE and finalize_hazard(cfg, body):
+            raise core.Excluded()
+        if EXCLUDE_STRICT_LOAD_ERROR and cfg.get("undefined") == "strict" and cg.strict_hazard(body):
+            raise core.Excluded()
+        if EXCLUDE_CONST_SLICE and cg.slice_hazard(body):
+            raise core.Excluded()
     style = case.get("style", 0)
     variants = [("A", cg.print_body(body, style), {})]
     nunits = len(cg.units(body))
@@ -288,12 +295,20 @@ def check_known(entry):
 
 def cases(max_depth, max_stmts):
     base = cg.templates(max_depth, max_stmts)
-    if not EXCLUDE_FINALIZE_AUTOESCAPE:
-        return base
 
     def fix(case):
-        # exclusion by construction: a constant none in an output under finalize + active autoescape becomes ''
-        if finalize_hazard(case["env"], case["body"]):
+        """Exclusion of the listed findings' input classes by construction (the drawn case is repaired, not rejected)."""
+        if EXCLUDE_CONST_SLICE and cg.slice_hazard(case["body"]):
+            def wrap(e):
+                e = cg.map_children(e, wrap)
+                if e[0] == "slice" and not cg.sliceable(e[1]):
+                    e = ["slice", ["filter", "string", e[1], [], []]] + e[2:]
+                return e
+            case = dict(case, body=cg.map_body_exprs(case["body"], wrap))
+        if EXCLUDE_STRICT_LOAD_ERROR and case["env"].get("undefined") == "strict" and cg.strict_hazard(case["body"]):
+            case = dict(case, env=dict(case["env"], undefined="default"))
+        # a constant none in an output under finalize + active autoescape becomes ''
+        if EXCLUDE_FINALIZE_AUTOESCAPE and finalize_hazard(case["env"], case["body"]):
             def tr(e):
                 if e[0] == "const" and e[1] is None:
                     return ["const", ""]
@@ -334,7 +349,7 @@ def shards(tier):
 
 def run_shard(spec, ctx):
     rec = core.Rec()
-    n = ctx.pick(1500, 22000)
+    n = ctx.pick(900, 13500)
     core.hyp_shard(cases(ctx.pick(3, 4), ctx.pick(4, 5)), check_case, ctx, n, rec=rec, tag="deep")
     if not rec.violations:
         core.hyp_shard(cases(2, 3), check_case, ctx, n // 2, rec=rec, tag="shallow")
